@@ -5,7 +5,7 @@ Pure `ast`.  Nothing is imported from the analysed repository.
 from __future__ import annotations
 import ast
 from .canon import canonicalise
-from .inline import inline_new_helpers
+from .inline import inline_new_helpers, package_helpers
 import hashlib
 import os
 from dataclasses import dataclass, field
@@ -233,6 +233,7 @@ class Program:
                     files.append(os.path.join(d, f))
         files.sort()
         h = hashlib.sha256()
+        parsed = []
         for path in files:
             rel = os.path.relpath(path, self.src_root)
             parts = rel[:-3].split(os.sep)
@@ -247,7 +248,25 @@ class Program:
                 tree = ast.parse(src, filename=path)
             except SyntaxError as e:
                 raise AnalysisError(f"cannot parse {path}: {e}")
-            tree, inl = inline_new_helpers(tree, name.replace(PKG + ".", "", 1) if name != PKG else "")
+            parsed.append((name, path, src, tree, is_pkg))
+        # method names defined in more than one class anywhere in the package cannot be resolved through `self` by the inliner
+        counts: Dict[str, int] = {}
+        for _n, _p, _s, tree, _k in parsed:
+            for c_ in ast.walk(tree):
+                if isinstance(c_, ast.ClassDef):
+                    for st_ in c_.body:
+                        if isinstance(st_, (ast.FunctionDef, ast.AsyncFunctionDef)):
+                            counts[st_.name] = counts.get(st_.name, 0) + 1
+        ambiguous = {n for n, k in counts.items() if k > 1}
+        def short(nm: str) -> str:
+            return nm.replace(PKG + ".", "", 1) if nm != PKG else ""
+        pkg_funcs, pkg_meths = package_helpers([(short(n_), t_) for n_, _p, _s, t_, _k in parsed], ambiguous)
+        # the helper bodies are copied from the trees as parsed: inline in dependency-free order by working on pristine copies of the helper bodies
+        import copy as _copy
+        imported = {a.name for _n, _p, _s, t_, _k in parsed for st_ in ast.walk(t_) if isinstance(st_, ast.ImportFrom) for a in st_.names}
+        pkg_funcs = {k: (_copy.deepcopy(f), _copy.deepcopy(b)) for k, (f, b) in pkg_funcs.items()}
+        for name, path, src, tree, is_pkg in parsed:
+            tree, inl = inline_new_helpers(tree, short(name), ambiguous, pkg_funcs, pkg_meths, is_pkg, imported)
             if inl:
                 self.inlined[name] = inl
             tree = canonicalise(tree)
